@@ -108,6 +108,16 @@ def run_case(case):
         diff = compare(case, ref, o, eng)
         if diff is not None:
             return Violation('c01:%s:%s' % (eng, diff[0]), {'engine': eng, **diff[1]}, cl)
+    # the same engines with a last-ops list requested (the CLI / quickstart default is 10): the native engine then runs
+    # its ring loop instead of the plain flat loop, the python loops keep a deque
+    ring_len = (1, 3, 10, 64)[(ref.ops + len(case['input_bits'])) % 4]
+    for eng in ('native', ('fast', 'featured')[ref.ops % 2]):
+        dev = engines.make_rec_device(case['input_bits'])
+        o = engines.run_engine(path, eng, dev, last_len=ring_len)
+        diff = compare(case, ref, o, eng)
+        if diff is not None:
+            return Violation('c01:%s+last-ops:%s' % (eng, diff[0]), {'engine': eng, 'last_ops_length': ring_len, **diff[1]}, cl)
+    cl.append('last-ops list of %d requested' % ring_len)
     # whole-byte input through the library's FixedIO on one engine
     if len(case['input_bits']) % 8 == 0:
         from flipjump.interpreter.io_devices.FixedIO import FixedIO
